@@ -7,7 +7,8 @@ EXTENDS Integers, Sequences, FiniteSets, TLC, Json
 CONSTANTS ArgVals,     \* values of the run-time arguments p of INIT and BOUND operands
           StepVals,    \* values of the run-time argument p of the step operand
           Fuel,        \* sequential iterations considered; longer (or non-terminating) loops are cut
-          MaxAbs       \* operands evaluate inside -MaxAbs..MaxAbs (the recording window of the harness)
+          MaxAbs,      \* operands evaluate inside -MaxAbs..MaxAbs (the recording window of the harness)
+          OneQ         \* TRUE: try one value of the second argument q per operator class (quick tier)
 
 -----------------------------------------------------------------------------
 (* Operands.  desc = [c |-> class, v |-> literal value (class "lit" only)].
@@ -49,7 +50,7 @@ Ev(d, p, q) ==
     [] d.c = "div"   -> CDiv(p, q)
 
 \* second-argument values tried per class (run-time values, small on purpose)
-QVals(d) ==
+QVals2(d) ==
   CASE d.c \in Unary  -> {0}
     [] d.c = "add"    -> {-1, 2}
     [] d.c = "sub"    -> {-1, 1}
@@ -60,6 +61,7 @@ QVals(d) ==
     [] d.c = "bor"    -> {0, 1}
     [] d.c = "tern"   -> {0, 2}
     [] d.c = "div"    -> {1, 2}
+QVals(d) == IF OneQ THEN {CHOOSE q \in QVals2(d) : \A r \in QVals2(d) : q >= r} ELSE QVals2(d)
 PVals(d, isStep) == IF d.c = "lit" THEN {0} ELSE IF isStep THEN StepVals ELSE ArgVals
 
 -----------------------------------------------------------------------------
